@@ -1495,9 +1495,10 @@ class SetItems(StackSliceOpcode):
         for key, value in zip(stack_slice[::2], stack_slice[1::2]):
             update_dict_keys.append(key)
             update_dict_values.append(value)
-        if isinstance(pydict, ast.Dict) and not pydict.keys:
-            # the dict is empty, so fill it in place (like APPEND does for lists): the memo may
-            # already alias this node, and a later GET must see the same contents
+        if isinstance(pydict, ast.Dict):
+            # extend the dict literal in place (like APPEND does for lists): the memo may already
+            # alias this node, and a later GET must see the same contents. Later duplicates of a
+            # key win in a dict display exactly as they do for successive item assignments.
             pydict.keys.extend(update_dict_keys)
             pydict.values.extend(update_dict_values)
             interpreter.stack.append(pydict)
@@ -1523,9 +1524,9 @@ class SetItem(Opcode):
         value = interpreter.stack.pop()
         key = interpreter.stack.pop()
         pydict = interpreter.stack.pop()
-        if isinstance(pydict, ast.Dict) and not pydict.keys:
-            # the dict is empty, so fill it in place (like APPEND does for lists): the memo may
-            # already alias this node, and a later GET must see the same contents
+        if isinstance(pydict, ast.Dict):
+            # extend the dict literal in place (like APPEND does for lists): the memo may already
+            # alias this node, and a later GET must see the same contents
             pydict.keys.append(key)
             pydict.values.append(value)
             interpreter.stack.append(pydict)
